@@ -127,9 +127,11 @@ func GenEngineScript(r *Rng, o EngineGenOpts, hist map[string]int) []string {
 		add("pathstyle %d", r.Pick(1, 3, 4))
 		hist["dirpath_not_canonical"]++
 	}
+	hostileScenario := false
 	if o.HostileCaller || (o.HostileSome && r.Chance(1, 3)) {
 		add("hostile 1")
 		hist["hostile_caller"]++
+		hostileScenario = true
 	}
 	add("open %s", c)
 	if steer {
@@ -194,6 +196,11 @@ func GenEngineScript(r *Rng, o EngineGenOpts, hist map[string]int) []string {
 	}
 	for i := 0; i < nops; i++ {
 		x := r.Intn(100)
+		if hostileScenario && (r.Chance(1, 10) || i == nops-1) {
+			// several callers read the same few keys at the same moment and each scribbles over what it got
+			add("hostileget %d %d", 4+r.Intn(5), 100+r.Intn(200))
+			hist["hostile_concurrent_gets"]++
+		}
 		if o.MergeHeavy && r.Chance(1, 8) {
 			// merge, perhaps more writes, then the adopting restart and a second restart
 			hist["op_merge_cycle"]++
@@ -529,6 +536,13 @@ func GenCrashScript(r *Rng, kind string, hist map[string]int) []string {
 	if kind == "merge" {
 		c.fsize = r.Pick(64, 200, 700, 4096)
 	}
+	// a file limit above the 512 MiB a memory-mapped file is pre-allocated with: after the process died the
+	// active file keeps that size, and nothing but recovery decides where writing goes on
+	bigMap := kind != "merge" && c.io == 1 && r.Chance(1, 2)
+	if bigMap {
+		c.fsize = 1 << 30
+		hist["crash_mmap_limit_above_preallocation"]++
+	}
 	add("dir db")
 	add("open %s", c)
 	mut := func() {
@@ -633,6 +647,9 @@ func GenCrashScript(r *Rng, kind string, hist map[string]int) []string {
 		hist["crash_merge"]++
 	}
 	c2 := genCfg(r, o, hist)
+	if bigMap {
+		c2.fsize = 1 << 30
+	}
 	add("crashscan %s %s", c2, prop)
 	add("dump")
 	add("close")
